@@ -146,7 +146,8 @@ def drive(binp, work, driver, cases_path, out_path, seed, tier, extra=(), timeou
         env["GORACE"] = f"halt_on_error=0 exitcode=0 log_path={race_log}"
     # the process environment around the library is a rendering too (chosen by seed and driver): the temporary directory lies on
     # ANOTHER file system than the sandboxes (and has a blank in its name), HOME / XDG_* point at a decoy notation configuration
-    # that trusts everything (skip-level policies; nothing the drivers build ever refers to it), a time zone, a umask
+    # that trusts everything (skip-level policies; nothing the drivers build ever refers to it), a time zone that is not UTC
+    # (the harness embeds the time zone data base), a umask
     envroot = tempfile.mkdtemp(prefix="verif_env_", dir="/dev/shm" if os.path.isdir("/dev/shm") and os.access("/dev/shm", os.W_OK) else work)
     k = int(seed) + zlib.crc32(driver.encode())
     os.makedirs(os.path.join(envroot, "tmp dir"))
@@ -159,7 +160,7 @@ def drive(binp, work, driver, cases_path, out_path, seed, tier, extra=(), timeou
         with open(os.path.join(decoy, fn), "w") as f:
             json.dump(doc, f)
     env.update(TMPDIR=os.path.join(envroot, "tmp dir"), HOME=os.path.join(envroot, "home"), XDG_CONFIG_HOME=os.path.join(envroot, "home", ".config"),
-               XDG_CACHE_HOME=os.path.join(envroot, "home", ".cache"), TZ=["UTC", "Asia/Kolkata", "America/St_Johns", "Pacific/Kiritimati"][k % 4],
+               XDG_CACHE_HOME=os.path.join(envroot, "home", ".cache"), TZ=["Asia/Kolkata", "America/St_Johns", "Pacific/Kiritimati", "America/Los_Angeles"][k % 4],
                VERIF_UMASK=["022", "077", "002", "000"][(k // 4) % 4])
     try:
         p = run(cmd, cwd=work, env=env, timeout=timeout)
